@@ -677,10 +677,9 @@ class History:
         scale = float(np.dot(np.abs(wmodel), np.abs(f))) or 1.0
         m = abs(float(val) - want) / scale
         sig = None
-        if not m <= 1e-12:
-            d = H.decode(np.array([float(val)]), scales=(1.0,))
+        if not m <= 1e-11:
             sig = "integral-differs-from-model-quadrature"
-        self.ctx.check("integrate-equals-model", subj, m, 1e-12, sig=sig, detail={"got": float(val), "want": want, "hist": self.hid, "op": self.op})
+        self.ctx.check("integrate-equals-model", subj, m, 1e-11, sig=sig, detail={"got": float(val), "want": want, "hist": self.hid, "op": self.op})
         self.log.append("integrate")
 
     def op_mol_new(self):
@@ -961,5 +960,20 @@ def _recorded(ctx, p):
         mol = MolGrid(np.array([1]), [at], np.ones(at.size), store=False)
         lg = mol.get_atomic_grid(0)
         ctx.observe("LocalGrid returned by MolGrid.get_atomic_grid/__getitem__ (store=False) is a view on the molecular grid's arrays (an edit writes through)", shares_points=bool(np.shares_memory(lg.points, mol.points)), shares_weights=bool(np.shares_memory(mol[0].weights, mol.weights)))
+    except Exception as exc:  # noqa
+        ctx.count("recorded-not-decided:probe-raised:" + type(exc).__name__)
+    try:
+        rg = OneDGrid(np.array([0.5, 1.0, 1.5]), np.array([1.0, 1.0, 1.0]), (0, np.inf))
+        at = AtomGrid(rg, degrees=[5])
+        f = np.ones(at.size)
+        before = float(at.radial_component_splines(f)[0](1.0))
+        at.basis[...] = 2.0 * at.basis
+        after = float(at.radial_component_splines(f)[0](1.0))
+        ctx.observe(
+            "AtomGrid.basis hands out the lazily cached harmonics array of that object: an in-place edit of it changes what radial_component_splines "
+            "of the SAME object returns later (own attribute, like .weights)",
+            l0_component_before=before,
+            l0_component_after=after,
+        )
     except Exception as exc:  # noqa
         ctx.count("recorded-not-decided:probe-raised:" + type(exc).__name__)
